@@ -486,6 +486,83 @@ pub enum Item {
     Table(Table),
     Co(CoCase),
     Drv(crate::props::c08::HCase),
+    Wrapped(Wrapped),
+}
+
+/// Interrupt suppression through the buffer-owning queue wrapper: the setting the caller made last
+/// (on the plain queue before wrapping it, or through the wrapper) is what the device reads.
+#[derive(Clone, Debug, Serialize, Deserialize)]
+pub struct Wrapped {
+    /// setting made on the plain queue before it is wrapped (None: left alone)
+    pub pre: Option<bool>,
+    pub toggles: Vec<bool>,
+    /// a completion is delivered and polled between toggles
+    pub traffic: bool,
+}
+
+pub fn wrapped(c: &Wrapped, st: &mut Stats) -> Result<(), String> {
+    use virtio_drivers::queue::{OwningQueue, VirtQueue};
+    world::reset();
+    with(|w| {
+        w.dev.default_max = 65536;
+        w.dev.status = 0xf;
+        w.dev.log_events = false;
+    });
+    let mut t = MTransport::new();
+    let mut q = match guard(|| VirtQueue::<crate::hal::LHal, 4>::new(&mut t, 0, false, false, false)) {
+        Caught::Ok(Ok(q)) => q,
+        _ => return Err("queue creation failed".into()),
+    };
+    if let Some(p) = c.pre {
+        q.set_dev_notify(p);
+    }
+    let mut o = match guard(|| OwningQueue::<crate::hal::LHal, 4, 16>::new(q)) {
+        Caught::Ok(Ok(o)) => o,
+        _ => return Err("OwningQueue construction failed".into()),
+    };
+    let qs = with(|w| w.dev.queue(0).clone());
+    let mut rq = RefQueue::new(qs.size, qs.desc, qs.avail, qs.used, false, false);
+    for (i, &e) in c.toggles.iter().enumerate() {
+        o.set_dev_notify(e);
+        let f = with(|w| rq.avail_flags(&w.hal))?;
+        if f != (!e) as u16 {
+            let _ = guard(move || {
+                drop(o);
+                drop(t);
+            });
+            return Err(format!(
+                "OwningQueue::set_dev_notify({}) (toggle #{}, setting before wrapping {:?}) but the device reads avail.flags = {:#x}",
+                e, i, c.pre, f
+            ));
+        }
+        if c.traffic {
+            let r = with(|w| -> Result<(), String> {
+                if let Some(ch) = rq.fetch(&w.hal)? {
+                    rq.write_chain(&w.hal, &ch, &[i as u8; 4])?;
+                    rq.push_used(&w.hal, ch.head as u32, 4)?;
+                }
+                Ok(())
+            });
+            r?;
+            let _ = guard(|| o.poll(&mut t, |b| Ok(Some(b.len()))));
+        }
+    }
+    let _ = guard(move || {
+        use virtio_drivers::transport::Transport;
+        t.queue_unset(0);
+        drop(o);
+        drop(t);
+    });
+    st.class("owning_queue_notify_settings");
+    let mut s = Sig::new();
+    s.add(0x0c).add(c.pre.map(|b| b as u64 + 1).unwrap_or(0)).add(c.traffic as u64);
+    for &b in &c.toggles {
+        s.add(b as u64);
+    }
+    if c.pre.is_some() && c.toggles.len() >= 2 {
+        st.nontrivial(s.get(), || json!(c));
+    }
+    Ok(())
 }
 
 /// Part 4: the blocking helpers of every driver against notification-driven / late / polling
@@ -531,6 +608,7 @@ pub fn replay(engine: &str, case: &serde_json::Value) -> Result<(), String> {
                 Item::Table(t) => table(t, &mut st),
                 Item::Co(c) => cosim(c, &mut st),
                 Item::Drv(c) => drivers(c, &mut st),
+                Item::Wrapped(c) => wrapped(c, &mut st),
             }
         }
     }
@@ -610,11 +688,23 @@ pub fn run(ctx: &Ctx) -> Report {
             }
         }
     }
+    // interrupt suppression through the owning wrapper: every setting before wrapping x every
+    // toggle sequence of length <= 4, with and without traffic in between
+    for pre in [None, Some(false), Some(true)] {
+        for len in 1..=4u32 {
+            for bits in 0..(1u32 << len) {
+                for traffic in [false, true] {
+                    items.push(Item::Wrapped(Wrapped { pre, toggles: (0..len).map(|k| bits >> k & 1 != 0).collect(), traffic }));
+                }
+            }
+        }
+    }
     let (st, mut failure) = run_items(ctx, "items", items, |it: &Item, st| match it {
         Item::Sweep(s) => sweep(s, st),
         Item::Table(t) => table(t, st),
         Item::Co(c) => cosim(c, st),
         Item::Drv(c) => drivers(c, st),
+        Item::Wrapped(c) => wrapped(c, st),
     });
     stats.merge(st);
     if failure.is_none() {
@@ -635,7 +725,7 @@ pub fn run(ctx: &Ctx) -> Report {
         failure,
         info: PartInfo {
             level: "exploration",
-            rule: "(1) event-index sweep: for every queue size in the tier, every batch size b<=N and every placement of avail_event relative to the window [old,new) (each position inside, the two just outside, the far side), walk the real queue through all 65536 index values (one independent should_notify scenario per window) and require vring_need_event(event,new,old) => should_notify(); plus, when the implementation is observed to be stateless, the full 65536x65536 (available index, avail_event) table. (2) queue histories: flag mode equivalence, set_dev_notify as read by the device, used_event after each consumed completion. (3) co-simulation of add_notify_wait_pop against OnNotify / Poll / Late devices through the spin hook, incl. runs of >65536 calls: returns, with the recorded length, within the policy's turn bound, having notified iff asked. (4) every driver's blocking helpers (11 drivers x 4 transports x {INDIRECT, EVENT_IDX} subsets x OnNotify / Late / Poll) on the driver's reference device, whose unused suppression field carries a decoy: no call may wait on a queue with entries the device was never told about. Histories (2) also check should_notify against vring_need_event over the window since the previous check, whatever was popped in between. Non-trivial = a sweep/table item that includes windows crossing 65535->0, or a co-simulation in which the device would sleep forever without the notification; distinct = item parameters / (config, call shapes, policy switches).",
+            rule: "(1) event-index sweep: for every queue size in the tier, every batch size b<=N and every placement of avail_event relative to the window [old,new) (each position inside, the two just outside, the far side), walk the real queue through all 65536 index values (one independent should_notify scenario per window) and require vring_need_event(event,new,old) => should_notify(); plus, when the implementation is observed to be stateless, the full 65536x65536 (available index, avail_event) table. (2) queue histories: flag mode equivalence, set_dev_notify as read by the device, used_event after each consumed completion. (3) co-simulation of add_notify_wait_pop against OnNotify / Poll / Late devices through the spin hook, incl. runs of >65536 calls: returns, with the recorded length, within the policy's turn bound, having notified iff asked. (4) every driver's blocking helpers (11 drivers x 4 transports x {INDIRECT, EVENT_IDX} subsets x OnNotify / Late / Poll) on the driver's reference device, whose unused suppression field carries a decoy: no call may wait on a queue with entries the device was never told about. (5) OwningQueue::set_dev_notify for every setting made before wrapping and every toggle sequence of length <= 4: the device reads exactly the last setting. Histories (2) also check should_notify against vring_need_event over the window since the previous check, whatever was popped in between. Non-trivial = a sweep/table item that includes windows crossing 65535->0, or a co-simulation in which the device would sleep forever without the notification; distinct = item parameters / (config, call shapes, policy switches).",
             assumptions: vec![
                 "the co-simulated device re-arms avail_event / used.flags after every service turn and re-checks the ring, as the specification requires of devices".into(),
                 "blocking helpers of the individual drivers are exercised against notification-driven devices in the driver checks (C14-C20); this check covers the shared helper on the raw queue".into(),
